@@ -215,7 +215,8 @@ func (c *Ctx) decodeSites() []decodeSite {
 				if b, ok := sig.Results().At(0).Type().(*types.Basic); !ok || b.Kind() != types.String {
 					continue
 				}
-				if m.builderStringT(st.Call.Args[0], roles) == "" {
+				ti, _ := tokenParam(sig)
+				if ti < 0 || ti >= len(st.Call.Args) || m.builderStringT(st.Call.Args[ti], roles) == "" {
 					continue
 				}
 				if !seen[st.Call.Site.Pos()] {
@@ -340,7 +341,7 @@ func cascadeRule(c *Ctx, rule string) {
 		}
 	}
 	paths = nilByConds(paths) // `return value, err` under `err == nil` returns (value, nil)
-	field := c.Info.Defs[fd.Type.Params.List[0].Names[0]]
+	field := tokenParamObj(c, fd)
 	// stage of a decision term
 	stageOf := func(t Term) (string, *TCall) {
 		b, ok := t.(TBin)
@@ -944,7 +945,7 @@ func cascadeFold(c *Ctx, fd *ast.FuncDecl) (n int, bad, undec string) {
 	if why != "" {
 		return 0, "", "body outside the path vocabulary: " + why
 	}
-	field := c.Info.Defs[fd.Type.Params.List[0].Names[0]]
+	field := tokenParamObj(c, fd)
 	bits := int(c.intSize()) * 8
 	for _, s := range cascadeCorpus {
 		// reference
@@ -1066,4 +1067,26 @@ func cascadeFold(c *Ctx, fd *ast.FuncDecl) (n int, bad, undec string) {
 		n++
 	}
 	return n, "", ""
+}
+
+// tokenParamObj: the string parameter of a token consumer (the first parameter when there is no single string parameter).
+func tokenParamObj(c *Ctx, fd *ast.FuncDecl) types.Object {
+	var first, str types.Object
+	n := 0
+	for _, f := range fd.Type.Params.List {
+		for _, nm := range f.Names {
+			o := c.Info.Defs[nm]
+			if first == nil {
+				first = o
+			}
+			if o != nil && isStringType(o.Type()) {
+				str = o
+				n++
+			}
+		}
+	}
+	if n == 1 {
+		return str
+	}
+	return first
 }
